@@ -79,13 +79,18 @@ Proof. exact (res_kept drift tv). Qed.
 
 End c03.
 
-(** the shim's check path accepts exactly the runs that continue the cached
-    head without a gap; anything else (a sparse or shifted list) is refused as
-    a whole: nothing is written, the attempt ends with errNonAdjacent *)
-Theorem C03_shim_accepts_iff_consecutive : forall (c : hdr) (hs : list hdr),
+(** the shim's check path accepts exactly the lists that walk on from the
+    cached head ([wrun]: each header is the rolling head again - same height and
+    hash - or one above it); in particular every run consecutive from the head;
+    anything else (a sparse or shifted list) is refused as a whole: nothing is
+    written, the attempt ends with errNonAdjacent *)
+Theorem C03_shim_accepts_iff_run : forall (c : hdr) (hs : list hdr),
   hs <> [] -> (forall y, In y (c :: hs) -> hok y) -> h_height c <= h_height (hd hdr_nil hs) ->
-  ((exists nh, shim_check c hs = ShimOk nh) <-> consec (c :: hs)).
+  ((exists nh, shim_check c hs = ShimOk nh) <-> wrun c hs).
 Proof. exact shim_check_ok_iff. Qed.
+
+Theorem C03_consecutive_is_run : forall (c : hdr) (hs : list hdr), consec (c :: hs) -> wrun c hs.
+Proof. exact consec_wrun. Qed.
 
 Theorem C03_sparse_answer_refused : forall (a : ganswer) (c : cfg) k hs,
   c_loop c = LApp0 k hs -> shim_check (c_cache c) hs = ShimNonAdj ->
@@ -115,5 +120,6 @@ Print Assumptions C03_store_contiguous.
 Print Assumptions C03_only_allowed_provenance.
 Print Assumptions C03_rejected_never_target.
 Print Assumptions C03_verdict_kept.
-Print Assumptions C03_shim_accepts_iff_consecutive.
+Print Assumptions C03_shim_accepts_iff_run.
+Print Assumptions C03_consecutive_is_run.
 Print Assumptions C03_sparse_answer_refused.
